@@ -106,7 +106,10 @@ func (p *tlsConfigPool) LoadTLSConfig(config TLSConfig) (*tls.Config, error) {
 	case config.GetTrustedCertificateAuthorityFile() != "":
 		var err error
 		ca, err = p.caWatcher.WatchFile(
-			NewFileReader(config.GetTrustedCertificateAuthorityFile()),
+			// The file watcher keeps one watcher per reader ID and a new one replaces the previous one.
+			// Bind the ID to this TLS config: two configs may trust the same CA file (e.g. with different
+			// refresh intervals) and must not stop each other's watcher.
+			tlsConfigFileReader{Reader: NewFileReader(config.GetTrustedCertificateAuthorityFile()), configID: id},
 			config.GetTrustedCertificateAuthorityRefreshInterval().AsDuration(),
 			func(data []byte) { p.updateCA(id, data) },
 		)
@@ -174,6 +177,15 @@ func (p *tlsConfigPool) updateCA(id string, caPem []byte) {
 	p.configs[id] = tlsConfig
 	p.mu.Unlock()
 }
+
+// tlsConfigFileReader is a file Reader whose ID is scoped to a TLS config of the pool.
+type tlsConfigFileReader struct {
+	Reader
+	configID string
+}
+
+// ID returns the file ID qualified with the ID of the TLS config that watches it.
+func (r tlsConfigFileReader) ID() string { return r.configID + ":" + r.Reader.ID() }
 
 // tlsConfigEncoder is the internal representation of a TLSConfig.
 // It handles some useful methods for the TLSConfig.
